@@ -104,6 +104,10 @@ structure LoopInfo where
   feedsAck : Bool      -- an `isinstance(m, Ack)` branch calls `self.sender.ack(m.idx)`
   callsRetry : Bool    -- every iteration calls `self.sender.maybe_retry()`
   timeoutMs : Option Nat := none  -- `timeout_ms` of the loop's `recv_messages` call; none = blocks for ever
+  raiseEnds : Bool := true        -- a ValueError out of `self.sender.maybe_retry()` ENDS the loop: no `except`
+                                  -- handler between the call and the end of the loop swallows it (a handler that
+                                  -- re-raises, `break`s, returns or sets the flag the `while` tests is no swallow);
+                                  -- true also when the loop never calls maybe_retry
 deriving DecidableEq, Repr
 
 inductive Op where
